@@ -571,6 +571,22 @@ func init() {
 					c.Ops(8)
 					c.Case(0, true, "factory")
 				}})
+			// the bounds stay attached to each variable through every history of other fills, expansions (which rename
+			// the variables), printing and re-parsing: all operation sequences up to depth 3 (thorough 4), then every
+			// ASCII variable of the reached template is filled with every length 0..6 and judged by the bounds of its base name
+			histDepth := 3
+			if tier == "thorough" {
+				histDepth = 4
+			}
+			histCount := uint64(0)
+			for d, p := 0, uint64(1); d <= histDepth; d, p = d+1, p*uint64(len(c15HistOps)) {
+				histCount += p
+			}
+			sp = append(sp, h.Space{Name: "ascii-variable-bounds-through-histories", Count: histCount,
+				Describe: func(i uint64) interface{} {
+					return fmt.Sprintf("%s; operations %v; then every ASCII variable filled with lengths 0..6", c15HistTemplate, c15HistNames(c15HistSeq(i)))
+				},
+				Run: func(c *h.Ctx, i uint64) { c15History(c, c15HistSeq(i)) }})
 			return sp
 		},
 	})
@@ -594,4 +610,220 @@ func errorAt(errs []string, line, col int) bool {
 		}
 	}
 	return false
+}
+
+// ---- ASCII variable bounds through histories ----
+
+// c15HistTemplate holds five ASCII variables with five different declarations, two of them inside repeated groups
+// of two nested ellipses, next to variables of other kinds.
+const c15HistTemplate = "S1F1 W Hist\n<L <A[1..3] va> <L <A[2] vb> <U1 ux> <L <A[..1] vf> ...> ...> <A[..2] vc> <A[4..] vd> <A ve> <BOOLEAN bx>>\n."
+
+var c15HistBounds = map[string][2]int{"va": {1, 3}, "vb": {2, 2}, "vc": {0, 2}, "vd": {4, -1}, "ve": {0, -1}, "vf": {0, 1}}
+
+var c15HistOps = []string{"fill-every-U1", "expand-every-ellipsis-2", "expand-first-ellipsis-1", "expand-every-ellipsis-0", "print-and-reparse", "fill-ve", "fill-va-valid", "fill-bx", "refused-fill-of-vd"}
+
+func c15HistSeq(i uint64) []int {
+	n := uint64(len(c15HistOps))
+	l := 0
+	for p := uint64(1); i >= p; p *= n {
+		i -= p
+		l++
+	}
+	seq := make([]int, l)
+	for k := l - 1; k >= 0; k-- {
+		seq[k] = int(i % n)
+		i /= n
+	}
+	return seq
+}
+
+func c15HistNames(seq []int) []string {
+	out := make([]string, len(seq))
+	for k, o := range seq {
+		out[k] = c15HistOps[o]
+	}
+	return out
+}
+
+// c15Base strips the [i] suffixes an expansion appends.
+func c15Base(name string) string {
+	if k := strings.IndexByte(name, '['); k >= 0 {
+		return name[:k]
+	}
+	return name
+}
+
+func c15History(c *h.Ctx, seq []int) {
+	ms, errs, _, pan := smlRun(c15HistTemplate)
+	if pan != "" || len(errs) > 0 || len(ms) != 1 {
+		c.Fail("template-not-parsed", c15HistTemplate, fmt.Sprint(pan, errs))
+		c.Case(0, true, "bad")
+		return
+	}
+	m := ms[0]
+	in := fmt.Sprintf("%q after %v", c15HistTemplate, c15HistNames(seq))
+	step := func(what string, fill map[string]interface{}) bool {
+		if len(fill) == 0 {
+			return true
+		}
+		var res *ast.DataMessage
+		p := catch(func() { res = m.FillVariables(fill) })
+		c.Ops(1)
+		if p != nil || res == nil {
+			c.Fail("history-step-refused", in, fmt.Sprintf("%s with %s: %v", what, showMap(fill), p))
+			return false
+		}
+		m = res
+		return true
+	}
+	for _, o := range seq {
+		vars := m.Variables()
+		fill := map[string]interface{}{}
+		switch c15HistOps[o] {
+		case "fill-every-U1":
+			for _, v := range vars {
+				if c15Base(v) == "ux" {
+					fill[v] = 7
+				}
+			}
+		case "expand-every-ellipsis-2", "expand-every-ellipsis-0":
+			n := 2
+			if c15HistOps[o] == "expand-every-ellipsis-0" {
+				n = 0
+			}
+			for _, v := range vars {
+				if strings.HasPrefix(v, "...") {
+					fill[v] = n
+				}
+			}
+		case "expand-first-ellipsis-1":
+			for _, v := range vars {
+				if strings.HasPrefix(v, "...") {
+					fill[v] = 1
+					break
+				}
+			}
+		case "print-and-reparse":
+			text := m.String()
+			ms2, errs2, _, pan2 := smlRun(text)
+			c.Ops(1)
+			if pan2 != "" || len(errs2) > 0 || len(ms2) != 1 {
+				c.Fail("printed-template-not-parsed", in, fmt.Sprintf("%q: %v %v", text, pan2, errs2))
+				c.Case(0, true, "bad")
+				return
+			}
+			m = ms2[0]
+		case "fill-ve":
+			for _, v := range vars {
+				if v == "ve" {
+					fill[v] = "hello world"
+				}
+			}
+		case "fill-va-valid":
+			for _, v := range vars {
+				if v == "va" {
+					fill[v] = "ab"
+				}
+			}
+		case "fill-bx":
+			for _, v := range vars {
+				if v == "bx" {
+					fill[v] = true
+				}
+			}
+		case "refused-fill-of-vd":
+			// a refused fill (too short) must leave the template as it was
+			for _, v := range vars {
+				if v == "vd" {
+					before := m.String()
+					p := catch(func() { m.FillVariables(map[string]interface{}{"vd": "abc"}) })
+					c.Ops(1)
+					if p == nil {
+						c.Fail("fill-outside-bounds-accepted", in, "vd [4..] accepted a 3-character string")
+					}
+					if m.String() != before {
+						c.Fail("refused-fill-changed-template", in, m.String())
+					}
+				}
+			}
+		}
+		if !step(c15HistOps[o], fill) {
+			c.Case(0, true, "bad")
+			return
+		}
+	}
+	// every ASCII variable that is left: declaration printed, bounds enforced for every length
+	vars := m.Variables()
+	text := m.String()
+	nvars := 0
+	for _, v := range vars {
+		bd, isA := c15HistBounds[c15Base(v)]
+		if !isA {
+			continue
+		}
+		nvars++
+		min, max := bd[0], bd[1]
+		if want := ref.Print(ref.AsciiVar(v, min, max)); !strings.Contains(text, want) {
+			c.Fail("bounds-not-printed", in, fmt.Sprintf("%q is not in %q", want, text))
+		}
+		for n := 0; n <= 6; n++ {
+			s := strings.Repeat("k", n)
+			var res *ast.DataMessage
+			p := catch(func() { res = m.FillVariables(map[string]interface{}{v: s}) })
+			c.Ops(1)
+			okLen := n >= min && (max == -1 || n <= max)
+			switch {
+			case okLen && p != nil:
+				c.Fail("fill-within-bounds-refused", in, fmt.Sprintf("%s [%d..%d] filled with %d characters: %v", v, min, max, n, p))
+			case !okLen && p == nil:
+				c.Fail("fill-outside-bounds-accepted", in, fmt.Sprintf("%s [%d..%d] accepted %d characters", v, min, max, n))
+			case okLen:
+				// exactly this variable is gone, the others keep their declarations
+				left := res.Variables()
+				if len(left) != len(vars)-1 {
+					c.Fail("fill-result", in, fmt.Sprintf("filling %s: variables %v -> %v", v, vars, left))
+				}
+				rt := res.String()
+				for _, w := range left {
+					if bw, isA2 := c15HistBounds[c15Base(w)]; isA2 {
+						if want := ref.Print(ref.AsciiVar(w, bw[0], bw[1])); !strings.Contains(rt, want) {
+							c.Fail("bounds-lost-by-sibling-fill", in, fmt.Sprintf("after filling %s: %q is not in %q", v, want, rt))
+						}
+					}
+				}
+			}
+		}
+	}
+	// all ASCII variables at once with their longest legal strings (one call, many bounds)
+	all := map[string]interface{}{}
+	for _, v := range vars {
+		if bd, isA := c15HistBounds[c15Base(v)]; isA {
+			n := bd[1]
+			if n == -1 {
+				n = bd[0] + 3
+			}
+			all[v] = strings.Repeat("m", n)
+		}
+	}
+	if len(all) > 0 {
+		if p := catch(func() { m.FillVariables(all) }); p != nil {
+			c.Fail("fill-within-bounds-refused", in, fmt.Sprintf("all ASCII variables with their longest legal strings %s: %v", showMap(all), p))
+		}
+		c.Ops(1)
+		// ... and with one of them one character too long: refused as a whole
+		for _, v := range vars {
+			if bd, isA := c15HistBounds[c15Base(v)]; isA && bd[1] != -1 {
+				bad := map[string]interface{}{}
+				for k, x := range all {
+					bad[k] = x
+				}
+				bad[v] = strings.Repeat("m", bd[1]+1)
+				if p := catch(func() { m.FillVariables(bad) }); p == nil {
+					c.Fail("fill-outside-bounds-accepted", in, fmt.Sprintf("%s one character too long among %d filled variables", v, len(bad)))
+				}
+				c.Ops(1)
+			}
+		}
+	}
+	c.Case(0, true, fmt.Sprintf("ascii-variables-left=%d", nvars))
 }
